@@ -19,6 +19,7 @@ import (
 	"fmt"
 	"go/ast"
 	"go/constant"
+	"go/token"
 	"go/types"
 	"reflect"
 	"sort"
@@ -427,7 +428,7 @@ func c11TermPrinterArms(pk *packages.Package, sc *c11Schema) map[string][]string
 // C11.go: the Go halves of the round trip
 
 func c11Go(r *fw.Run, p *fw.Program) {
-	ru := r.Rule("C11.go", "_query_fromstring parses exactly its argument with gojq.Parse and returns exactly the JSON image of that tree; _query_tostring rebuilds a gojq.Query from exactly its argument and returns exactly (*gojq.Query).String() of it; every error is tested before the result is used", 14)
+	ru := r.Rule("C11.go", "_query_fromstring parses exactly its argument with gojq.Parse and returns exactly the JSON image of that tree; _query_tostring rebuilds a gojq.Query from exactly its argument and returns exactly (*gojq.Query).String() of it (the only other values it may return are errors: of a failed step, or built in a deferred recover); every error is tested before the result is used", 14)
 	reg := jqRegistered(p)
 	var from, to *ssa.Function
 	for fn := range reg {
@@ -744,23 +745,29 @@ func c11Go(r *fw.Run, p *fw.Program) {
 			// returned value is exactly the call result
 			okret := false
 			var retIns ssa.Instruction
-			for _, ret := range c11Returns(fn) {
-				if len(ret.Results) == 1 && unwrapIface(ret.Results[0]) == ssa.Value(str) {
-					okret = true
-					retIns = ret
-				}
-			}
-			if okret {
-				var allowed []ssa.Instruction
-				for _, ref := range *str.Referrers() {
-					if mi, ok := ref.(*ssa.MakeInterface); ok {
-						if _, only := onlyUses(mi, retIns); only {
-							allowed = append(allowed, mi)
-						}
+			if res := c11ResultCell(fn); res != nil {
+				// named result kept in a cell (captured by a deferred closure): the normal path stores
+				// exactly String() into it and returns; every other write is judged below
+				okret, retIns = c11ToStringCell(ru, p, fn, who, res, str, unwrapIface)
+			} else {
+				for _, ret := range c11Returns(fn) {
+					if len(ret.Results) == 1 && unwrapIface(ret.Results[0]) == ssa.Value(str) {
+						okret = true
+						retIns = ret
 					}
 				}
-				allowed = append(allowed, retIns)
-				_, okret = onlyUses(str, allowed...)
+				if okret {
+					var allowed []ssa.Instruction
+					for _, ref := range *str.Referrers() {
+						if mi, ok := ref.(*ssa.MakeInterface); ok {
+							if _, only := onlyUses(mi, retIns); only {
+								allowed = append(allowed, mi)
+							}
+						}
+					}
+					allowed = append(allowed, retIns)
+					_, okret = onlyUses(str, allowed...)
+				}
 			}
 			ru.Check(okret, who+":result", p.Rel(str.Pos()), "returns exactly (*gojq.Query).String()", "the string returned to jq is not exactly the result of (*gojq.Query).String(): the printed program is post-processed")
 			if retIns != nil {
@@ -795,4 +802,232 @@ func c11Returns(fn *ssa.Function) []*ssa.Return {
 		}
 	}
 	return out
+}
+
+// c11ResultCell: the function returns a single named result kept in memory (every return is a
+// load of the same cell) — the shape a result takes when a deferred closure may overwrite it.
+func c11ResultCell(fn *ssa.Function) *ssa.Alloc {
+	var cell *ssa.Alloc
+	rets := c11Returns(fn)
+	if len(rets) == 0 {
+		return nil
+	}
+	for _, ret := range rets {
+		if len(ret.Results) != 1 {
+			return nil
+		}
+		ld, ok := ret.Results[0].(*ssa.UnOp)
+		if !ok || ld.Op != token.MUL {
+			return nil
+		}
+		a, ok := ld.X.(*ssa.Alloc)
+		if !ok || (cell != nil && a != cell) {
+			return nil
+		}
+		cell = a
+	}
+	return cell
+}
+
+var c11ErrorIface = types.Universe.Lookup("error").Type().Underlying().(*types.Interface)
+
+// c11ToStringCell judges every use of the result cell of _query_tostring. The normal path stores
+// exactly the value of the String() call (used for nothing else) and nothing but running the
+// defers and returning follows in that block. Any other write must be an error value: on a failed
+// step in the function itself, or inside a closure that is only ever deferred, under a test that
+// recover() returned non-nil. It returns whether the normal path is exact and the store that ends it.
+func c11ToStringCell(ru *fw.Rule, p *fw.Program, fn *ssa.Function, who string, res *ssa.Alloc, str *ssa.Call, unwrap func(ssa.Value) ssa.Value) (bool, ssa.Instruction) {
+	isErr := func(v ssa.Value) bool {
+		t := unwrap(v).Type()
+		return t != nil && types.Implements(t, c11ErrorIface)
+	}
+	// `return v` of the named result itself compiles to *res = *res: a store of the cell's own
+	// value, loaded in the same block with no other store to the cell in between
+	selfStore := func(st *ssa.Store) bool {
+		ld, ok := st.Val.(*ssa.UnOp)
+		if !ok || ld.Op != token.MUL || ld.X != ssa.Value(res) || st.Addr != ssa.Value(res) || ld.Block() != st.Block() {
+			return false
+		}
+		between := false
+		for _, ins := range st.Block().Instrs {
+			if ins == ssa.Instruction(ld) {
+				between = true
+				continue
+			}
+			if ins == ssa.Instruction(st) {
+				return between
+			}
+			if o, isSt := ins.(*ssa.Store); isSt && between && o.Addr == ssa.Value(res) {
+				return false
+			}
+			if _, isCall := ins.(ssa.CallInstruction); isCall && between {
+				return false
+			}
+		}
+		return false
+	}
+	var success *ssa.Store
+	var probs []string
+	nOther := 0
+	for _, ref := range *res.Referrers() {
+		switch x := ref.(type) {
+		case *ssa.DebugRef:
+		case *ssa.UnOp:
+			// loads: only to be returned
+			for _, r := range *x.Referrers() {
+				switch y := r.(type) {
+				case *ssa.Return, *ssa.DebugRef:
+				case *ssa.Store:
+					if !selfStore(y) {
+						probs = append(probs, "the result is read back by `"+r.String()+"` before it is returned")
+					}
+				default:
+					probs = append(probs, "the result is read back by `"+r.String()+"` before it is returned")
+				}
+			}
+		case *ssa.Store:
+			if x.Addr != ssa.Value(res) {
+				probs = append(probs, "the address of the result is stored away")
+				continue
+			}
+			if selfStore(x) {
+				continue
+			}
+			if unwrap(x.Val) == ssa.Value(str) {
+				if success != nil {
+					probs = append(probs, "String() is assigned to the result more than once")
+				}
+				success = x
+				continue
+			}
+			nOther++
+			if !isErr(x.Val) {
+				probs = append(probs, "the result is also assigned `"+x.Val.String()+"` ("+unwrap(x.Val).Type().String()+"), which is neither String() itself nor an error")
+			} else if x.Block() == str.Block() {
+				probs = append(probs, "the result is overwritten on the path that prints the query")
+			}
+		case *ssa.MakeClosure:
+			cl, _ := x.Fn.(*ssa.Function)
+			if cl == nil {
+				probs = append(probs, "the result is captured by an unknown closure")
+				continue
+			}
+			for _, r := range *x.Referrers() {
+				if _, ok := r.(*ssa.Defer); !ok {
+					if _, dbg := r.(*ssa.DebugRef); !dbg {
+						probs = append(probs, "the closure capturing the result is not only deferred: `"+r.String()+"`")
+					}
+				}
+			}
+			for i, b := range x.Bindings {
+				if b != ssa.Value(res) || i >= len(cl.FreeVars) {
+					continue
+				}
+				fv := cl.FreeVars[i]
+				for _, r := range *fv.Referrers() {
+					switch y := r.(type) {
+					case *ssa.DebugRef, *ssa.UnOp:
+					case *ssa.Store:
+						nOther++
+						switch {
+						case y.Addr != ssa.Value(fv):
+							probs = append(probs, "the address of the result is stored away in the deferred closure")
+						case !isErr(y.Val):
+							probs = append(probs, "the deferred closure assigns `"+y.Val.String()+"` ("+unwrap(y.Val).Type().String()+") to the result, which is not an error: jq would take it for the printed program")
+						case !c11UnderRecover(y):
+							probs = append(probs, "the deferred closure overwrites the result outside a test that recover() returned non-nil: a successfully printed program is replaced")
+						}
+					default:
+						probs = append(probs, "the deferred closure uses the result cell in `"+r.String()+"`")
+					}
+				}
+			}
+		default:
+			probs = append(probs, "the result cell is used by `"+ref.String()+"`")
+		}
+	}
+	ok := success != nil
+	if ok {
+		// String() feeds only that store
+		for _, r := range *str.Referrers() {
+			switch y := r.(type) {
+			case *ssa.DebugRef:
+			case *ssa.MakeInterface:
+				for _, rr := range *y.Referrers() {
+					if rr != ssa.Instruction(success) {
+						if _, dbg := rr.(*ssa.DebugRef); !dbg {
+							ok = false
+						}
+					}
+				}
+			default:
+				ok = false
+			}
+		}
+		// nothing but rundefers / load / return after it
+		after := false
+		for _, ins := range success.Block().Instrs {
+			if ins == ssa.Instruction(success) {
+				after = true
+				continue
+			}
+			if !after {
+				continue
+			}
+			switch y := ins.(type) {
+			case *ssa.RunDefers, *ssa.Return, *ssa.DebugRef:
+			case *ssa.UnOp:
+				if y.X != ssa.Value(res) {
+					ok = false
+				}
+			case *ssa.Store:
+				if !selfStore(y) {
+					ok = false
+				}
+			default:
+				ok = false
+			}
+		}
+		if _, isRet := success.Block().Instrs[len(success.Block().Instrs)-1].(*ssa.Return); !isRet {
+			ok = false
+		}
+	}
+	sort.Strings(probs)
+	ru.Check(len(probs) == 0, who+":result:other-writes", p.Rel(fn.Pos()), fmt.Sprintf("the %d other assignments to the result are errors (failed step, or deferred recover)", nOther),
+		"besides String() on the normal path the result of _query_tostring may only receive error values (a failed step, or one built in a deferred recover): "+strings.Join(probs, "; "))
+	if success == nil {
+		return false, nil
+	}
+	return ok, success
+}
+
+// c11UnderRecover: the instruction runs only when a call of the builtin recover returned non-nil.
+func c11UnderRecover(ins ssa.Instruction) bool {
+	for _, g := range fw.Guards(ins.Block()) {
+		g = g.Normalize()
+		bo, ok := g.Cond.(*ssa.BinOp)
+		if !ok {
+			continue
+		}
+		var other ssa.Value
+		if c11IsNil(bo.X) {
+			other = bo.Y
+		} else if c11IsNil(bo.Y) {
+			other = bo.X
+		} else {
+			continue
+		}
+		call, ok := other.(*ssa.Call)
+		if !ok {
+			continue
+		}
+		b, ok := call.Common().Value.(*ssa.Builtin)
+		if !ok || b.Name() != "recover" {
+			continue
+		}
+		if (bo.Op == token.NEQ && g.True) || (bo.Op == token.EQL && !g.True) {
+			return true
+		}
+	}
+	return false
 }
